@@ -493,7 +493,7 @@ func init() {
 	register("C04", func(tier string, r *Rng, emit func(Case)) {
 		n := 900
 		if tier == "thorough" {
-			n = 12000
+			n = 100000
 		}
 		genGrid(tier, r, emit)
 		genHist("read", n, r, emit)
@@ -501,7 +501,7 @@ func init() {
 	register("C07", func(tier string, r *Rng, emit func(Case)) {
 		n := 1500
 		if tier == "thorough" {
-			n = 20000
+			n = 150000
 		}
 		genGrid(tier, r, emit)
 		genHist("chain", n, r, emit)
@@ -531,7 +531,7 @@ func init() {
 	register("C17", func(tier string, r *Rng, emit func(Case)) {
 		n := 1500
 		if tier == "thorough" {
-			n = 20000
+			n = 150000
 		}
 		genHist("type", n, r, emit)
 	}, ops)
